@@ -93,6 +93,7 @@ def run(chk, tier):
     chk.guarded(r_plain_year, P, tier)
     chk.guarded(c10.r_fraction_scale, P, tier)
     chk.guarded(r_write_hundreds, P, tier)
+    chk.guarded(r_offset_from_str, P, tier)
     chk.assume("sign/width of out-of-range years, the 0/3/6/9 fraction digits, second 60 and offset padding (the round trip itself) are NOT decided")
     return {
         "explanation": "Narrow claim for C09: the default writers and the readers agree structurally. The separator/placeholder skeleton written by Debug (and Display) of "
@@ -332,3 +333,21 @@ def r_write_hundreds(chk, P, tier):
 
 def result_variant_(t):
     return t[3] if t is not None and t[0] == "agg" and t[1] == "adt" else None
+
+
+def r_offset_from_str(chk, P, tier):
+    """FixedOffset's reader is the scanner plus the range check: the value scan::timezone_offset returned reaches FixedOffset::east_opt unmodified (no recomposition from
+    hours and minutes, no sign handling of its own - the scanner already produced signed seconds)"""
+    chk.rule("COPY.offset_from_str", "FixedOffset::from_str hands the offset scanned by scan::timezone_offset to east_opt unmodified", floor=1)
+    fn = "<offset::fixed::FixedOffset as std::str::FromStr>::from_str"
+    seen = []
+    for p in Sym(P, fn).paths():
+        for c in p.calls:
+            if isinstance(c[1], str) and c[1].endswith("FixedOffset::east_opt"):
+                a = c[2][0]
+                arith = [x for x in walk_terms(a) if x[0] in ("bin", "un") or (x[0] == "call" and isinstance(x[1], str) and not (x[1].endswith("timezone_offset") or "Try>::branch" in x[1]))]
+                from_scan = any(x[0] == "call" and isinstance(x[1], str) and x[1].endswith("scan::timezone_offset") for x in walk_terms(a))
+                seen.append((from_scan and not arith, pp(a)[:160]))
+    if not seen:
+        raise AnchorLost("FixedOffset::from_str: no east_opt call")
+    chk.expect(all(o for o, _ in seen), "east_opt argument", "FixedOffset::from_str passes %s to east_opt (expected the scanned offset itself)" % sorted({t for o, t in seen if not o}), loc=P.loc(fn))
